@@ -299,3 +299,30 @@ pub fn eq_tern(p: &ProgramDef, rng: &mut Rng) -> Input {
    res.sort_by_key(|(i, _)| *i);
    res
 }
+
+/// one or two keys with 1100-2300 values each (`src(k, v)`), probes on those keys: sizes beyond the
+/// capacity steps (1024, 2048) of a per-key value vector
+pub fn hot_key(p: &ProgramDef, rng: &mut Rng) -> Input {
+   let mut res = small(p, rng);
+   let mut set = |name: &str, rows: Vec<Row>, res: &mut Input| {
+      if let Some(i) = p.rel_index(name) {
+         res.retain(|(j, _)| *j != i);
+         res.push((i, rows));
+      }
+   };
+   let nkeys = rng.range(1, 2);
+   let mut src: Vec<Row> = vec![];
+   for k in 0..nkeys {
+      let n = rng.range(1100, 2300);
+      for v in 0..n {
+         src.push(vec![Val::I(k as i64), Val::I(10 + v as i64)]);
+      }
+   }
+   rng.shuffle(&mut src);
+   set("src", src, &mut res);
+   let mut probe: Vec<Row> = (0..nkeys).map(|k| vec![Val::I(k as i64)]).collect();
+   probe.push(vec![Val::I(10 + rng.below(50) as i64)]);
+   set("probe", probe, &mut res);
+   res.sort_by_key(|(i, _)| *i);
+   res
+}
